@@ -86,17 +86,27 @@ pub fn run(op: &str, args: &[&str]) -> Option<String> {
         }
         /* each argument: d:<name bytes>:<file>,<file>..  or  f:<name bytes>; files are text names */
         ("db.iter", _) => {
-            let dir = std::env::temp_dir().join(format!("pkgsrc_harness_db_{}", std::process::id()));
-            let _ = std::fs::remove_dir_all(&dir);
+            /* the database lives below a directory whose name is not UTF-8: where the tree is placed must not matter;
+               kind "l" = a symbolic link to a directory kept outside the database */
+            let top = std::env::temp_dir().join(format!("pkgsrc_harness_db_{}", std::process::id()));
+            let _ = std::fs::remove_dir_all(&top);
+            let dir = top.join(OsStr::from_bytes(b"caf\xe9 db"));
+            let outside = top.join("outside");
             std::fs::create_dir_all(&dir).unwrap();
+            std::fs::create_dir_all(&outside).unwrap();
             for a in args {
                 let mut it = a.splitn(3, ':');
                 let kind = it.next().unwrap();
                 let name = bytes(it.next().unwrap());
-                let p = dir.join(OsStr::from_bytes(&name));
+                let mut p = dir.join(OsStr::from_bytes(&name));
                 if kind == "f" {
                     std::fs::write(&p, b"stray").unwrap();
                 } else {
+                    if kind == "l" {
+                        let target = outside.join(OsStr::from_bytes(&name));
+                        std::os::unix::fs::symlink(&target, &p).unwrap();
+                        p = target;
+                    }
                     std::fs::create_dir_all(&p).unwrap();
                     let files = it.next().unwrap_or("");
                     if !files.is_empty() {
@@ -126,7 +136,7 @@ pub fn run(op: &str, args: &[&str]) -> Option<String> {
                 v.sort();
                 Ok::<String, String>(format!("OK:{}", v.join("#")))
             })();
-            let _ = std::fs::remove_dir_all(&dir);
+            let _ = std::fs::remove_dir_all(&top);
             match r {
                 Ok(s) => s,
                 Err(s) => s,
